@@ -10,6 +10,6 @@ pub fn c12_world(s: &mut Session) {
     let case = world_case("C12", nontrivial, classes);
     s.regress::<Scenario, _>("world", &case);
     let prof = Profile { w_reject: 45, w_under: 10, w_nontramp: 0, w_hash_mismatch: 0, w_crash: 1, write_faults: false, extreme_cfg: true, max_parts: 3, ..Profile::default() };
-    let n = s.tier.pick(500, 5000);
+    let n = s.tier.pick(500, 15000);
     s.search("world-rejection-carries-policy", "world", n, move || scenario_strategy(prof.clone()), &case);
 }
